@@ -102,6 +102,20 @@ func main() {
 		os.Exit(replay(os.Args[2], len(os.Args) > 3 && os.Args[3] == "--trace"))
 	case "build":
 		os.Exit(warm())
+	case "determinism":
+		// pbsim determinism <ID> [seeds] [procs]: runs each of <seeds> scenarios in <procs> fresh
+		// processes spread over GOMAXPROCS 1/4/16 and compares the trace hashes
+		if len(os.Args) < 3 {
+			die(2, "usage: pbsim determinism <ID> [seeds] [procs]")
+		}
+		ns, np := 20, 30
+		if len(os.Args) > 3 {
+			ns, _ = strconv.Atoi(os.Args[3])
+		}
+		if len(os.Args) > 4 {
+			np, _ = strconv.Atoi(os.Args[4])
+		}
+		os.Exit(determinism(os.Args[2], ns, np))
 	default:
 		die(2, "unknown command %q", os.Args[1])
 	}
@@ -161,6 +175,73 @@ func warm() int {
 	cfgs := []buildCfg{{Race: true}, {Race: false}}
 	_, _, code := buildAll(dir, cfgs)
 	return code
+}
+
+func determinism(id string, nseeds, nprocs int) int {
+	p, ok := props[id]
+	if !ok {
+		die(2, "unknown property %q", id)
+	}
+	dir := workRoot()
+	defer os.RemoveAll(dir)
+	builds, bld, code := buildAll(dir, p.Quick.Builds[len(p.Quick.Builds)-1:])
+	if code != 0 {
+		return code
+	}
+	if p.Plugin {
+		if code := buildPlugin(bld, dir); code != 0 {
+			return code
+		}
+	}
+	b := builds[0]
+	bad := 0
+	total := 0
+	for si := 0; si < nseeds; si++ {
+		seed := uint64(1000003*uint64(si+1) + 17)
+		outs := make([]string, nprocs)
+		var wg sync.WaitGroup
+		sem := make(chan struct{}, runtime.NumCPU())
+		for pi := 0; pi < nprocs; pi++ {
+			wg.Add(1)
+			go func(pi int) {
+				defer wg.Done()
+				sem <- struct{}{}
+				defer func() { <-sem }()
+				cmd := exec.Command(b.bin, "-prop", id, "-tier", "quick", "-out", dir, "-offset", fmt.Sprint(2000+pi), "-one", fmt.Sprint(seed), "-hash")
+				env := workerEnv(dir, 2000+pi)
+				gmp := []string{"1", "4", "16"}[pi%3]
+				for i, e := range env {
+					if strings.HasPrefix(e, "GOMAXPROCS=") {
+						env[i] = "GOMAXPROCS=" + gmp
+					}
+				}
+				cmd.Env = env
+				o, _ := cmd.CombinedOutput()
+				for _, l := range strings.Split(string(o), "\n") {
+					if strings.HasPrefix(l, "seed=") {
+						outs[pi] = l
+					}
+				}
+				if outs[pi] == "" {
+					outs[pi] = "NO OUTPUT: " + crashHead(string(o))
+				}
+			}(pi)
+		}
+		wg.Wait()
+		total += nprocs
+		for pi := 1; pi < nprocs; pi++ {
+			if outs[pi] != outs[0] {
+				bad++
+				fmt.Printf("DIVERGENCE property=%s seed=%d\n  process 0 (GOMAXPROCS=1): %s\n  process %d (GOMAXPROCS=%s): %s\n", id, seed, outs[0], pi, []string{"1", "4", "16"}[pi%3], outs[pi])
+				break
+			}
+		}
+	}
+	fmt.Printf("pbsim: determinism %s: %d seeds x %d processes (GOMAXPROCS 1/4/16), %d executions, %d seeds with a divergence\n", id, nseeds, nprocs, total, bad)
+	if bad > 0 {
+		return 2
+	}
+	return 0
 }
 
 func workerEnv(dir string, off int) []string {
